@@ -383,6 +383,52 @@ pub fn c18(out: &mut Out, thorough: bool) {
         let req = format!("bb frombbs {}", bbs.iter().map(|&s| hex(s)).collect::<Vec<_>>().join(" "));
         out.case("from-boards", true, req, || bbh(bbs.iter().map(|&s| BitBoard::from_u64(s)).collect::<BitBoard>()));
     }
+    // long collections with repeats: more than 64 items, a new square turning up late
+    for _ in 0..(if thorough { 2_000 } else { 200 }) {
+        let pool: Vec<u64> = (0..(1 + out.rng.below(10))).map(|_| out.rng.below(64)).collect();
+        let len = 60 + out.rng.below(90) as usize;
+        let mut sqs: Vec<u64> = (0..len).map(|_| *out.rng.pick(&pool)).collect();
+        for _ in 0..(1 + out.rng.below(4)) {
+            sqs.push(out.rng.below(64));
+        }
+        let req = format!("bb fromsqs {}", sqs.iter().map(|s| s.to_string()).collect::<Vec<_>>().join(" "));
+        out.case("from-squares-long", true, req, || bbh(sqs.iter().map(|&s| pos_of(s)).collect::<BitBoard>()));
+    }
+    // operation sequences on one iterator: next, nth(k), size_hint interleaved (the hint must stay exact after nth)
+    for k in 0..(if thorough { 40_000 } else { 3_000 }) {
+        let a = if k % 3 == 0 { structured[(out.rng.below(structured.len() as u64)) as usize] } else if k % 3 == 1 { out.rng.word() & out.rng.word() } else { out.rng.word() };
+        let len = 2 + out.rng.below(9) as usize;
+        let ops: Vec<String> = (0..len)
+            .map(|_| match out.rng.below(6) {
+                0 | 1 => "n".to_string(),
+                2 | 3 => "s".to_string(),
+                _ => format!("t{}", out.rng.below(5)),
+            })
+            .collect();
+        let req = format!("bb iterops {} {}", hex(a), ops.join(" "));
+        out.case("iterator-op-sequence", true, req, || {
+            let mut it = BitBoard::from_u64(a).iter();
+            let mut outv = Vec::new();
+            for op in ops.iter() {
+                if op == "n" {
+                    outv.push(match it.next() { Some(p) => format!("n={}", p as u8), None => "n=none".into() });
+                } else if op == "s" {
+                    let (lo, hi) = it.size_hint();
+                    outv.push(if hi == Some(lo) { format!("s={lo}") } else { format!("s={lo}..{hi:?}") });
+                } else {
+                    let kk: usize = op[1..].parse().unwrap();
+                    match it.nth(kk) {
+                        Some(p) => outv.push(format!("t{kk}={}", p as u8)),
+                        None => {
+                            outv.push(format!("t{kk}=none"));
+                            break;
+                        }
+                    }
+                }
+            }
+            outv.join(" ")
+        });
+    }
     out.notes.insert("nth-path".into(), if cfg!(target_feature = "bmi2") { "bmi2 (PDEP)".into() } else { "portable (default Iterator::nth)".into() });
     out.notes.insert("structured".into(), format!("{} structured boards (empty, full, 64 singles, 2016 pairs, 8 files, 8 ranks)", structured.len()));
 }
@@ -744,6 +790,30 @@ mod trace {
         }
     }
 
+    struct Probe;
+    static PROBE: Probe = Probe;
+    static META: tracing::Metadata<'static> = tracing::metadata! {
+        name: "probe",
+        target: "harness",
+        level: tracing::Level::ERROR,
+        fields: &[],
+        callsite: &PROBE,
+        kind: tracing::metadata::Kind::EVENT
+    };
+    impl tracing::callsite::Callsite for Probe {
+        fn set_interest(&self, _: tracing::subscriber::Interest) {}
+        fn metadata(&self) -> &tracing::Metadata<'_> {
+            &META
+        }
+    }
+
+    /// would an event be enabled on this thread under a subscriber stack that has `GlobalEnable` as a layer?
+    fn layer_view() -> bool {
+        use tracing_subscriber::layer::SubscriberExt;
+        let d = tracing::Dispatch::new(tracing_subscriber::registry().with(te::GlobalEnable));
+        d.enabled(&META)
+    }
+
     enum Cmd {
         Do(Op),
         View,
@@ -784,7 +854,14 @@ mod trace {
                         }
                         rtx.send(true).unwrap();
                     }
-                    Cmd::View => rtx.send(te::is_enabled()).unwrap(),
+                    Cmd::View => {
+                        // the view as the program experiences it: `GlobalEnable` installed as a layer decides, on this
+                        // thread, whether an event is enabled; it must be the same as `is_enabled()`
+                        let v = te::is_enabled();
+                        let layer = layer_view();
+                        rtx.send(v).unwrap();
+                        rtx.send(layer == v).unwrap();
+                    }
                     Cmd::Quit => break,
                 }
             }
@@ -804,7 +881,9 @@ mod trace {
             let mut v = String::new();
             for w in ws.iter() {
                 w.tx.send(Cmd::View).unwrap();
-                v.push(if w.rx.recv().unwrap() { '1' } else { '0' });
+                let view = w.rx.recv().unwrap();
+                let layer_agrees = w.rx.recv().unwrap();
+                v.push(if !layer_agrees { 'L' } else if view { '1' } else { '0' });
             }
             toks.push(v);
         }
